@@ -169,6 +169,12 @@ def explore(ctx):
         if oa != oi:
             ctx.violation('with the alias: {}; with a copy written out: {}'.format(str(oa)[:150], str(oi)[:150]),
                           dict(L.describe(ca), key='alias-keytypes:{}'.format(ca.text[:60]), inlined_text=ci.text))
+    for c in LC.alias_across_types(ctx, ctx.budget(40, 800)):
+        cases.append(c)
+        ctx.case(('alias-across-types', c.text, repr(c.doc_type)), nontrivial=True)
+        if c.real_out[0] == 'other':
+            ctx.violation('load raises {} for {!r}'.format(c.real_out[1][:100], c.text),
+                          dict(L.describe(c), key='alias-escape:' + c.text[:60]))
     LC.correspond(ctx, cases)
 
 
